@@ -257,3 +257,36 @@ func buildGeom(compact bool, layers int) *geom {
 	}
 	return gm
 }
+
+// Layout describes where the parts of a symbol live; every module index is
+// y*Size+x.  It is a copy, callers may modify it.
+type Layout struct {
+	Size      int
+	Data      []int  // module of bit i of the codeword stream (incl. the unused leading bits)
+	Mode      []int  // module of bit i of the mode message
+	Fixed     []int  // bull's eye, orientation marks and reference grid modules
+	FixedDark []bool // mandatory colour of Fixed[i]
+	FixedKind []string
+}
+
+// LayoutOf returns the module layout of a format (layers 1..4 compact,
+// 1..32 full-range); it panics on other arguments.
+func LayoutOf(compact bool, layers int) Layout {
+	if layers < 1 || layers > 32 || (compact && layers > 4) {
+		panic("aztecdec: no such symbol format")
+	}
+	gm := getGeom(compact, layers)
+	l := Layout{Size: gm.size}
+	for _, i := range gm.data {
+		l.Data = append(l.Data, int(i))
+	}
+	for _, i := range gm.mode {
+		l.Mode = append(l.Mode, int(i))
+	}
+	for k, i := range gm.fixedIdx {
+		l.Fixed = append(l.Fixed, int(i))
+		l.FixedDark = append(l.FixedDark, gm.fixedVal[k])
+		l.FixedKind = append(l.FixedKind, kindNames[gm.fixedKind[k]])
+	}
+	return l
+}
